@@ -67,7 +67,14 @@ def run_spec(spec: dict) -> list[dict]:
                 rec.bounds[:, 0] += 0.3 * w
                 rec.bounds[:, 1] -= 0.2 * w
             rec.reset_for_new_tree()
-        tree = DemeTree(cfg)
+        via_hms = (spec.get("drive") or ["run"])[0] == "hms"
+        if via_hms:
+            # the documented front end builds the configuration and the tree and runs it
+            from pyhms import hms as _hms
+            rec.pending_start = cfg_summary(spec)
+            tree = _hms(cfg.levels, cfg.gsc, cfg.sprout_mechanism, options=cfg.options)
+        else:
+            tree = DemeTree(cfg)
         rec.tree = tree
         if spec.get("rival_tree"):
             # another tree of the process registers OTHER deme classes for the same user configuration classes; it is
@@ -78,7 +85,8 @@ def run_spec(spec: dict) -> list[dict]:
             rival = DemeTree(_TC(rcfg.levels, rcfg.gsc, rcfg.sprout_mechanism, options=rcfg.options,
                                  config_class_to_deme_class={CustomLevelConfig: CustomDemeB, DocStyleConfig: DocStyleDemeB}))
             rrec.tree = rival
-        rec.emit({"e": "start", "cfg": cfg_summary(spec), "snap": rec.snap(tree, full=True)})
+        if not via_hms:
+            rec.emit({"e": "start", "cfg": cfg_summary(spec), "snap": rec.snap(tree, full=True)})
         drive = spec.get("drive") or ["run"]
         if drive[0] == "interleaved":
             # a second tree (short-lived children, another seed) shares the sprout mechanism object with ours and is
@@ -99,6 +107,8 @@ def run_spec(spec: dict) -> list[dict]:
                     o.run_step()
                     t.run_step()
             run(tree, other)
+        elif drive[0] == "hms":
+            pass
         elif drive[0] == "run":
             tree.run()
         elif drive[0] == "steps":            # the caller steps the tree itself and never asks the global condition
